@@ -94,6 +94,19 @@ func newEpisode(slotMs int64, spe int) *episode {
 	return e
 }
 
+// waitStatus waits for Add's answer: three time-outs of 5 s in a row (one alone may be the machine's
+// fault: frozen for a snapshot, starved) mean that Add does not return.
+func waitStatus(ch chan core.DeadlineStatus) (core.DeadlineStatus, bool) {
+	for try := 0; try < 3; try++ {
+		select {
+		case st := <-ch:
+			return st, true
+		case <-time.After(5 * time.Second):
+		}
+	}
+	return 0, false
+}
+
 func (e *episode) nowMs() int64 { return e.clock.Now().Sub(e.genesis).Nanoseconds() }
 
 // deadlineMs returns the real deadline function's answer (-1 = never expires).
@@ -118,14 +131,13 @@ func (e *episode) sync() {
 	// own lock). A deadliner that blocks while its output buffer is full stalls them all.
 	ans := make(chan core.DeadlineStatus, 1)
 	go func() { ans <- e.dl.Add(core.NewVoluntaryExit(0)) }()
-	select {
-	case st := <-ans:
-		if st != core.DeadlineExempt {
-			panic("ping not exempt")
-		}
-	case <-time.After(5 * time.Second):
+	st, ok := waitStatus(ans)
+	if !ok {
 		e.addBlocked = true
 		return
+	}
+	if st != core.DeadlineExempt {
+		panic("ping not exempt")
 	}
 	// A correct deadliner always keeps one timer armed (at least the year-9999 sentinel). If none
 	// appears the implementation lost its timer: carry on, the monitors report what follows from it.
@@ -133,9 +145,17 @@ func (e *episode) sync() {
 		time.Sleep(2 * time.Millisecond) // already broken in this episode: do not wait again
 		return
 	}
-	ctx, cancel := context.WithTimeout(context.Background(), 300*time.Millisecond)
-	defer cancel()
-	if err := e.clock.BlockUntilContext(ctx, 1); err != nil {
+	// three attempts: one elapsed time-out may be the machine's fault (frozen for a snapshot, starved)
+	var err error
+	for try := 0; try < 3; try++ {
+		ctx, cancel := context.WithTimeout(context.Background(), 300*time.Millisecond)
+		err = e.clock.BlockUntilContext(ctx, 1)
+		cancel()
+		if err == nil {
+			break
+		}
+	}
+	if err != nil {
 		e.noTimer++
 	}
 }
@@ -279,10 +299,8 @@ func (e *episode) doAdd(run *hx.Run, slot uint64, ty int) string {
 	}
 	ansc := make(chan core.DeadlineStatus, 1)
 	go func() { ansc <- e.dl.Add(d) }()
-	var st core.DeadlineStatus
-	select {
-	case st = <-ansc:
-	case <-time.After(5 * time.Second):
+	st, ok := waitStatus(ansc)
+	if !ok {
 		e.addBlocked = true
 		if !e.addBlockedReported {
 			e.addBlockedReported = true
